@@ -826,6 +826,9 @@ func c20Shapes(tier string) []treeShape {
 
 func runC20(tier string, part, parts int) procxResult {
 	res := procxResult{prop: "C20"}
+	if part == 0 {
+		runC20History(&res)
+	}
 	killTimeout := 300 * time.Millisecond
 	shapes := c20Shapes(tier)
 	modes := []string{"cancel-when-all-leaves-run", "cancel-at-once", "forced-shutdown"}
@@ -921,6 +924,76 @@ func runC20(tier string, part, parts int) procxResult {
 		}
 	}
 	return res
+}
+
+// runC20History: the cancel must reach every process of the job also after a history in which the job was
+// dequeued behind a job that could not be started
+func runC20History(res *procxResult) {
+	marker := fmt.Sprintf("h%d", os.Getpid())
+	mk := func(m string) map[string]map[string]string {
+		return map[string]map[string]string{"a": {"VERIF_MARK": m}}
+	}
+	_ = mk
+	cfg := PipeCfg{Conc: 2, QL: -1, Graph: graphOne, Script: map[string][]string{"a": {"sleep 600"}}, TaskEnv: map[string]map[string]string{"a": {"VERIF_MARK": marker}}}
+	pw := newProcWorld(mkDefs(map[string]PipeCfg{"h": cfg}), 300*time.Millisecond)
+	defer pw.close()
+	sched := func(bad bool) *prunner.PipelineJob {
+		o := prunner.ScheduleOpts{}
+		if bad {
+			o.Variables = map[string]interface{}{taskctl.JobIDVariableName: "x"}
+		}
+		j, err := pw.r.ScheduleAsync("h", o)
+		if err != nil {
+			panic(err)
+		}
+		return j
+	}
+	j1, j2 := sched(false), sched(false)
+	_ = sched(true)
+	j4, j5 := sched(false), sched(false)
+	waitN := func(n int) bool {
+		for i := 0; i < 4000; i++ {
+			if countSleeps(marker) >= n {
+				return true
+			}
+			time.Sleep(2 * time.Millisecond)
+		}
+		return false
+	}
+	waitN(2)
+	_ = pw.r.CancelJob(j1.ID) // frees a slot: the unstartable job is skipped, job 4 starts
+	pw.wait(j1.ID, 10*time.Second)
+	waitN(2)
+	_ = pw.r.CancelJob(j2.ID) // frees the other slot: job 5 starts
+	pw.wait(j2.ID, 10*time.Second)
+	waitN(2)
+	time.Sleep(100 * time.Millisecond)
+	res.Cases++
+	res.Distinct++
+	if n := countSleeps(marker); n != 2 {
+		res.add("history:process-count", fmt.Sprintf("after jobs 1 and 2 were cancelled, jobs 4 and 5 should each run one process; %d processes of the pipeline are alive: %v", n, procsWithMarker(marker)))
+	}
+	_ = pw.r.CancelJob(j4.ID)
+	_ = pw.r.CancelJob(j5.ID)
+	pw.wait(j4.ID, 10*time.Second)
+	pw.wait(j5.ID, 10*time.Second)
+	deadline := time.Now().Add(10 * time.Second)
+	var alive []string
+	for {
+		alive = procsWithMarker(marker)
+		if len(alive) == 0 || time.Now().After(deadline) {
+			break
+		}
+		time.Sleep(20 * time.Millisecond)
+	}
+	if len(alive) > 0 {
+		res.add("history:process-survives-cancel", fmt.Sprintf("history [2 running, unstartable job, job 4, job 5; cancel 1, cancel 2, cancel 4, cancel 5]: every job is reported finished but %d processes are still alive: %v", len(alive), alive))
+		for _, p := range alive {
+			var pid int
+			fmt.Sscanf(p, "%d:", &pid)
+			syscall.Kill(pid, syscall.SIGKILL)
+		}
+	}
 }
 
 func countSleeps(marker string) int {
